@@ -91,7 +91,7 @@ def tree_engine(mode, tags, kinds, nq, nt):
             "classify": tree_cls(tags, kinds), "nontrivial": tree_nontrivial, "resets": ["scenario"]}
 
 
-CTRL_ACTIONS = ("scenario", "emptyrv", "srv", "cstart", "advance", "inject", "watch-errors", "watch-block", "burst-begin", "burst-end",
+CTRL_ACTIONS = ("scenario", "emptyrv", "stalelist", "srv", "cstart", "advance", "inject", "watch-errors", "watch-block", "burst-begin", "burst-end",
                 "settle", "closeroot", "cancel", "end")
 
 
@@ -221,7 +221,8 @@ PROPS = {
     },
     "C05": {
         "engines": [tree_engine("step,burst,burst", ("C05",), ("sub", "clone", "root", "mon"), 1500, 25000),
-                    tree_engine("overflow,stall", ("C05",), ("sub", "clone", "root", "mon"), 300, 5000)],
+                    tree_engine("overflow,stall", ("C05",), ("sub", "clone", "root", "mon"), 300, 5000),
+                    ctrl_engine("", ("C05",), 300, 5000)],
         "rule": "tree engine, modes step+burst: random trees of Subscribe/Clone (and the filtered constructors and monitors) up to depth 4, "
                 "server event streams with at most EventBufsiz/4 events in flight, subscriptions attached at arbitrary moments (also inside "
                 "bursts), schedule perturbation by virtual-time sleeps at the library's log calls. Every plain subscriber's drained sequence "
